@@ -151,12 +151,13 @@ func ProcessCreateAlertRequest(ctx *fasthttp.RequestCtx, org_id int64) {
 		utils.SendError(ctx, "Received empty request", "", nil)
 		return
 	}
-	alertToBeCreated.OrgId = org_id
 	err := json.Unmarshal(rawJSON, &alertToBeCreated)
 	if err != nil {
 		utils.SendError(ctx, fmt.Sprintf("Failed to unmarshal json. Error=%v", err), "", err)
 		return
 	}
+	// the alert belongs to the org of the request, whatever org_id the body carries
+	alertToBeCreated.OrgId = org_id
 
 	if alertToBeCreated.EvalInterval == 0 {
 		utils.SendError(ctx, "EvalInterval should be greater than zero", fmt.Sprintf("EvalWindow: %v, EvalInterval:%v", alertToBeCreated.EvalWindow, alertToBeCreated.EvalInterval), nil)
